@@ -34,12 +34,12 @@ def scratch(name, patched):
     return S
 
 
-def cmd_import(wt, pid):
+def cmd_import(wt, pid, offset=0):
     for k in (1, 2, 3):
         p = f"{wt}/out/patch{k}.diff"
         if not os.path.exists(p):
             continue
-        d = f"{SEEDED}/{pid}_{k}"
+        d = f"{SEEDED}/{pid}_{k + offset}"
         os.makedirs(d, exist_ok=True)
         shutil.copy(p, d + "/patch.diff")
         shutil.copy(f"{wt}/out/demo{k}.cpp", d + f"/demo{k}.cpp")
@@ -85,34 +85,49 @@ def confirm(name):
 
 def score(name):
     meta = json.load(open(f"{SEEDED}/{name}/meta.json"))
-    prop = meta["property"]
     S = scratch(name, True)
     out = {}
-    variants = ["plain", "asan"] + (["tsan"] if prop == "C12" else [])
-    for v in variants:
-        b = sh(f"make -C /verif -j8 REPO={S} B={S}/build {v}", timeout=3000)
-        if b.returncode != 0:
-            out[v] = "BUILD-FAILED " + b.stdout[-300:]
-            continue
-        runs = {"plain": 20000, "asan": 3000, "tsan": 3000}[v]
+    # the property the change was written against first, then (for changes that are races) the concurrency property
+    plan = [(meta["property"], "plain")]
+    for extra in meta.get("also_check", []):
+        plan.append((extra, "plain"))
+    plan += [(meta["property"], "asan")]
+    if meta["property"] in ("C07", "C08", "C12", "C15"):
+        plan.append((meta["property"], "tsan"))
+    if "C12" in meta.get("also_check", []):
+        plan.append(("C12", "tsan"))
+    built = set()
+    caught = False
+    for prop, v in plan:
+        if caught and os.environ.get("ALL") is None:
+            break
+        if v not in built:
+            b = sh(f"make -C /verif -j10 REPO={S} B={S}/build {v}", timeout=3000)
+            if b.returncode != 0:
+                out[f"{prop}/{v}"] = "BUILD-FAILED " + b.stdout[-300:]
+                continue
+            built.add(v)
+        runs = {"plain": 40000, "asan": 4000, "tsan": 4000}[v]
         if prop in ("C07", "C19"):
             runs //= 3
         extra = "--max-violations 1 --min-budget 100" if v == "tsan" else ""
         r = sh(f"{S}/build/stsim_{v} run --prop {prop} --seed {os.environ.get('SEED', '20260927')} --runs {runs} --workers 8 --out {S}/o_{v}.json --replay-dir {S}/replays {extra}", timeout=3000)
+        key = f"{prop}/{v}"
         try:
             j = json.load(open(f"{S}/o_{v}.json"))
             conf = [x for x in j["violations"] if x.get("confirmed")]
             if conf:
-                out[v] = "CAUGHT " + ",".join(sorted(set(x["class"] for x in conf))) + " | " + conf[0]["msg"][:200]
+                out[key] = "CAUGHT " + ",".join(sorted(set(x["class"] for x in conf))) + " | " + conf[0]["msg"][:200]
+                caught = True
             elif j["violations"]:
-                out[v] = "UNCONFIRMED " + ",".join(sorted(set(x["class"] for x in j["violations"])))
+                out[key] = "UNCONFIRMED " + ",".join(sorted(set(x["class"] for x in j["violations"])))
             else:
-                out[v] = f"MISSED ({j['runs']} runs)"
+                out[key] = f"MISSED ({j['runs']} runs)"
         except Exception as e:
-            out[v] = "NO-SUMMARY " + r.stdout[-200:]
+            out[key] = "NO-SUMMARY " + r.stdout[-200:]
     shutil.rmtree(S, ignore_errors=True)
     meta["checks_result"] = out
-    meta["caught"] = any(str(x).startswith("CAUGHT") for x in out.values())
+    meta["caught"] = caught
     json.dump(meta, open(f"{SEEDED}/{name}/meta.json", "w"), indent=1)
     return name, out
 
@@ -120,7 +135,7 @@ def score(name):
 if __name__ == "__main__":
     cmd = sys.argv[1]
     if cmd == "import":
-        cmd_import(sys.argv[2], sys.argv[3])
+        cmd_import(sys.argv[2], sys.argv[3], int(sys.argv[4]) if len(sys.argv) > 4 else 0)
         sys.exit(0)
     names = sys.argv[2:] or sorted(os.path.basename(d) for d in glob.glob(SEEDED + "/*_*") if os.path.isdir(d))
     fn = confirm if cmd == "confirm" else score
